@@ -4,8 +4,8 @@
    guards are REGENERATED from odl/util/numerics.py into Gen/Padding.v.
    [offset_ok n n_out off]  : 0 <= off and off + min <= max (the block fits);
    [pad_legal m n n_out off]: the padding lengths the docstring allows for mode m. *)
-From Coq Require Import ZArith Reals Lia Lra List Bool.
-From Verif Require Import Base.Num Base.Vec Base.VecR Lib.Axis C16.Syntax Gen.Padding C16.Model C16.ModelNd C16.ModelOp C16.Proofs.
+From Coq Require Import ZArith QArith Qreals Reals Lia Lra List Bool.
+From Verif Require Import Base.Num Base.Vec Base.VecR Lib.Axis C16.Syntax Gen.Padding Gen.ResizeDiscr C16.Model C16.ModelNd C16.ModelOp C16.Proofs C16.Transfer.
 Import ListNotations.
 Local Open Scope R_scope.
 
@@ -94,69 +94,70 @@ Theorem constant_padding_affine : forall (c : R) (x h : list R) (n_out : nat) (o
 Proof. exact const_affine. Qed.
 Print Assumptions constant_padding_affine.
 
-(* FULL STATEMENT, FALSE of the code as it stands (finding offset-out-of-range-accepted):
-   "an offset outside 0 .. |n_out - n| is rejected".  Python slice wrap-around and NumPy
-   length-1 broadcasting make the faithful model (and resize_array) return arrays:
-     resize_array([5], (4,), offset=-3)          -> [0, 5, 0, 0]
-     resize_array([1,2,3,4,5], (2,), offset=4)   -> [5, 5]
-   The theorems above are the partial statement: they hold under [offset_ok]. *)
-Theorem offset_range_checked_refuted :
-  (offset_ok 1 4 (-3) = false /\ resize1 PConstant Forward 0 true [5] 4 (-3) = Ok [0; 5; 0; 0]) /\
-  (offset_ok 5 2 4 = false /\ resize1 PConstant Forward 0 true [1; 2; 3; 4; 5] 2 4 = Ok [5; 5]).
-Proof. exact offset_range_refuted. Qed.
+(* T1: an offset outside 0 .. |n_out - n| is rejected (ValueError) for every mode,
+   direction and contents.  (Was finding offset-out-of-range-accepted, repaired by
+   675e308; the validation condition is regenerated into Gen.Padding.offset_invalid.) *)
+Theorem offset_out_of_range_is_rejected :
+  forall (m : pmode) (d : direction) (c : R) (cast : bool) (arr : list R) (n_out : nat) (off : Z),
+  length arr <> n_out -> offset_ok (length arr) n_out off = false ->
+  resize1 m d c cast arr n_out off = ValueErr.
+Proof. exact offset_out_of_range_rejected. Qed.
+Print Assumptions offset_out_of_range_is_rejected.
 
-(* ---- N-d (flat C-order arrays).  [sep_loop m d c cast outer ishape oshape offs]
-   applies the 1-d resize along axis 0, 1, ... ([Lib.Axis.along]); [sep_rev_loop]
-   applies the 1-d maps of the way back in the opposite axis order.  Both are
-   compared with resize_array on every N-d correspondence case (where the in-place
-   model [resizeN] with the working-slice bookkeeping is compared too); that the axis
-   order is immaterial is validated there, not proved.
+(* T1 (transfer): the model executed at Q by the correspondence shards is the rational
+   restriction of the model the theorems above are about: Q2R commutes with resize1
+   (outputs and error outcomes), every mode, direction, length and offset. *)
+Theorem resize1_Q_is_restriction_of_R :
+  forall (m : pmode) (d : direction) (c : Q) (cast : bool) (arr : list Q) (n_out : nat) (off : Z),
+  omap (resize1 m d c cast arr n_out off) = resize1 m d (Q2R c) cast (map Q2R arr) n_out off.
+Proof. exact resize1_transfer. Qed.
+Print Assumptions resize1_Q_is_restriction_of_R.
+
+(* ---- N-d (flat C-order arrays).  [sep_loop m d c cast outer src dst offs] applies the
+   1-d resize along axis 0, then 1, ... ([Lib.Axis.along]) -- the code's own axis order,
+   in both directions.  It is compared with resize_array on every N-d correspondence
+   case, together with the in-place model [resizeN] (working-slice bookkeeping).
    [config_ok m ishape oshape offs]: every axis has an admissible offset and legal
    padding -- any number of axes, growing in some while shrinking in others. ---- *)
 
-(* T1 (N-d): the separable adjoint is the transpose of the separable forward map. *)
+(* T1 (N-d): forward and adjoint directions of the separable model are transposes, with
+   the code's axis order (axis 0 first) in BOTH directions, any number of resized axes. *)
 Theorem resize_adjoint_nd :
   forall (m : pmode) (outer : nat) (ishape oshape : list nat) (offs : list Z) (x y : list R),
   config_ok m ishape oshape offs = true ->
   length x = (outer * prodn ishape)%nat -> length y = (outer * prodn oshape)%nat ->
   dot (sep_loop m Forward 0 true outer ishape oshape offs x) y
-  = dot x (sep_rev_loop m Adjoint 0 true outer ishape oshape offs y).
-Proof. exact sep_adjoint. Qed.
+  = dot x (sep_loop m Adjoint 0 true outer oshape ishape offs y).
+Proof. exact sep_adjoint_code_order. Qed.
 Print Assumptions resize_adjoint_nd.
 
-(* T1 (N-d): extending in every axis (mode m, constant c) and then cropping with the
-   same offsets (any mode) is the identity. *)
+(* T1 (N-d): extending in every axis (mode m) and then cropping with the same offsets
+   (any mode m') is the identity; both in the code's axis order. *)
 Theorem crop_after_extend_nd :
-  forall (m m' : pmode) (c c' : R) (cast' : bool) (outer : nat) (ishape oshape : list nat)
-         (offs : list Z) (x : list R),
-  config_ok m ishape oshape offs = true -> all_grow ishape oshape = true ->
-  length x = (outer * prodn ishape)%nat ->
-  sep_rev_loop m' Forward c' cast' outer ishape oshape offs
-    (sep_loop m Forward c true outer ishape oshape offs x) = x.
-Proof. exact sep_crop_extend. Qed.
-Print Assumptions crop_after_extend_nd.
-
-(* T1 (N-d, restricted axes): when at most one axis is resized (any position, any
-   number of untouched axes around it) the axis order is immaterial, so both theorems
-   hold for the code's own order (axis 0 first) in both directions. *)
-Theorem resize_adjoint_nd_single_axis :
-  forall (m : pmode) (outer : nat) (ishape oshape : list nat) (offs : list Z) (x y : list R),
-  config_ok m ishape oshape offs = true -> at_most_one ishape oshape offs = true ->
-  length x = (outer * prodn ishape)%nat -> length y = (outer * prodn oshape)%nat ->
-  dot (sep_loop m Forward 0 true outer ishape oshape offs x) y
-  = dot x (sep_loop m Adjoint 0 true outer oshape ishape offs y).
-Proof. exact sep_adjoint_single_axis. Qed.
-Print Assumptions resize_adjoint_nd_single_axis.
-
-Theorem crop_after_extend_nd_single_axis :
   forall (m m' : pmode) (outer : nat) (ishape oshape : list nat) (offs : list Z) (x : list R),
   config_ok m ishape oshape offs = true -> all_grow ishape oshape = true ->
-  at_most_one ishape oshape offs = true ->
   length x = (outer * prodn ishape)%nat ->
   sep_loop m' Forward 0 true outer oshape ishape offs
     (sep_loop m Forward 0 true outer ishape oshape offs x) = x.
-Proof. exact sep_crop_extend_single_axis. Qed.
-Print Assumptions crop_after_extend_nd_single_axis.
+Proof. exact sep_crop_extend_code_order. Qed.
+Print Assumptions crop_after_extend_nd.
+
+(* T1 (N-d): the axis order is immaterial.  Whenever every 1-d line map is linear
+   ([lines_lin]: true for every admissible configuration, [lines_lin_fwd] /
+   [lines_lin_adj]), applying the maps last axis first ([sep_rev_loop]) gives the same
+   array as applying them in the code's order.  (Proof: every linear map on lists is a
+   matrix; acting along one axis commutes with a linear map applied to the inner blocks.) *)
+Theorem axis_order_immaterial :
+  forall (m : pmode) (d : direction) (ishape oshape : list nat) (offs : list Z) (outer : nat) (y : list R),
+  lines_lin m d oshape ishape offs -> length y = (outer * prodn oshape)%nat ->
+  sep_rev_loop m d 0 true outer ishape oshape offs y = sep_loop m d 0 true outer oshape ishape offs y.
+Proof. exact sep_rev_eq_sep. Qed.
+Print Assumptions axis_order_immaterial.
+Theorem admissible_configurations_are_linear :
+  forall (m : pmode) (ishape oshape : list nat) (offs : list Z),
+  config_ok m ishape oshape offs = true ->
+  lines_lin m Forward ishape oshape offs /\ lines_lin m Adjoint oshape ishape offs.
+Proof. intros m i o f H; split; [exact (lines_lin_fwd m i o f H) | exact (lines_lin_adj m i o f H)]. Qed.
 
 (* T1: resize_array always returns an array of the requested length (any mode,
    direction, offset -- legal or not -- whenever it does not raise). *)
@@ -166,21 +167,22 @@ Theorem resize_result_length :
 Proof. exact resize1_length. Qed.
 Print Assumptions resize_result_length.
 
-(* T1 (operator range, per axis).  [resize_axis fixed a n_new off bl br] is the
+(* T1 (operator range, per axis).  [resize_axis a n_new off bl br] is the
    range axis built by _resize_discr from the domain axis a (interval, cells,
    nodes_on_bdry flags); [num_lr] the numbers of cells added left/right;
    [axis_valid]: n >= 1, and n >= 2 when a node lies on the boundary.
    With the same boundary convention the range has the SAME cell side and its
    interval is the domain interval enlarged by exactly nl cells on the left and
-   nr on the right, nl + nr = n_new - n.  (Holds for both sign conventions
-   [fixed]; for an extension nl = offset, nr = n_new - n - offset.) *)
+   nr on the right, nl + nr = n_new - n.  ([num_lr], [new_minpt], [new_maxpt] are
+   regenerated from _resize_discr into Gen/ResizeDiscr.v; for an extension
+   nl = offset, nr = n_new - n - offset.) *)
 Theorem range_covers_enlarged_domain :
-  forall (fixed : bool) (a : @axis R) (n_new : Z) (off : option Z),
+  forall (a : @axis R) (n_new : Z) (off : option Z),
   axis_valid a -> (1 <= n_new)%Z ->
   (a_bl a = true -> (2 <= n_new)%Z) -> (a_br a = true -> (2 <= n_new)%Z) ->
-  let r := resize_axis fixed a n_new off (a_bl a) (a_br a) in
-  let nl := fst (num_lr fixed (a_n a) n_new off) in
-  let nr := snd (num_lr fixed (a_n a) n_new off) in
+  let r := resize_axis a n_new off (a_bl a) (a_br a) in
+  let nl := fst (num_lr (a_n a) n_new off) in
+  let nr := snd (num_lr (a_n a) n_new off) in
   cell_side r = cell_side a /\
   a_min r = a_min a - IZR nl * cell_side a /\
   a_max r = a_max a + IZR nr * cell_side a /\
@@ -191,49 +193,50 @@ Print Assumptions range_covers_enlarged_domain.
 (* T1: any boundary convention for the range (discr_kwargs): same cell side, and
    the range GRID is the domain grid continued by nl / nr points. *)
 Theorem range_grid_continues_domain_grid :
-  forall (fixed : bool) (a : @axis R) (n_new : Z) (off : option Z) (bl br : bool),
+  forall (a : @axis R) (n_new : Z) (off : option Z) (bl br : bool),
   axis_valid a -> (1 <= n_new)%Z -> (bl = true -> (2 <= n_new)%Z) -> (br = true -> (2 <= n_new)%Z) ->
-  let r := resize_axis fixed a n_new off bl br in
-  let nl := fst (num_lr fixed (a_n a) n_new off) in
-  let nr := snd (num_lr fixed (a_n a) n_new off) in
+  let r := resize_axis a n_new off bl br in
+  let nl := fst (num_lr (a_n a) n_new off) in
+  let nr := snd (num_lr (a_n a) n_new off) in
   cell_side r = cell_side a /\
   gmin r = gmin a - IZR nl * cell_side a /\
   gmax r = gmax a + IZR nr * cell_side a.
 Proof. exact resize_axis_grid. Qed.
 Print Assumptions range_grid_continues_domain_grid.
 
-(* T1: _offset_from_spaces recovers |nl| (hence the offset of an extension). *)
+(* T1: without an explicit offset the size change is distributed evenly, with preference
+   for the left in case of ambiguity (docstring of ResizingOperator). *)
+Theorem default_offset_even_prefers_left : forall n n_new : Z,
+  let '(nl, nr) := num_lr n n_new None in ((nl + nr = n_new - n) /\ (0 <= nl - nr <= 1))%Z.
+Proof. exact default_split. Qed.
+
+(* T1: _offset_from_spaces (regenerated [offset_float]: signed shift, negated when the
+   range is larger) recovers the cells added on the left of an extension resp. removed
+   on the left of a restriction. *)
 Theorem offset_from_spaces_recovers :
-  forall (fixed : bool) (a : @axis R) (n_new : Z) (off : option Z) (bl br : bool),
+  forall (a : @axis R) (n_new : Z) (off : option Z) (bl br : bool),
   axis_valid a -> (1 <= n_new)%Z -> (bl = true -> (2 <= n_new)%Z) -> (br = true -> (2 <= n_new)%Z) ->
   0 < cell_side a ->
-  offset_float a (resize_axis fixed a n_new off bl br)
-  = Rabs (IZR (fst (num_lr fixed (a_n a) n_new off))).
+  offset_float_ax a (resize_axis a n_new off bl br)
+  = IZR (let nl := fst (num_lr (a_n a) n_new off) in if (a_n a <? n_new)%Z then nl else (- nl)%Z).
 Proof. exact offset_float_resize. Qed.
 Print Assumptions offset_from_spaces_recovers.
 
-(* FULL STATEMENT, FALSE of the code as it stands (finding
-   range-restrict-explicit-offset):  "a restricting operator built with
-   ran_shp and an explicit offset o has the sub-interval starting o cells
-   inside the domain as its range".  The code uses num_l = +o also when
-   shrinking, so the range starts o cells to the LEFT of the domain:
-     ResizingOperator(uniform_discr(0, 1, 10), ran_shp=(6,), offset=2).range
-     is uniform_discr(-0.2, 0.4, 6), not uniform_discr(0.2, 0.8, 6). *)
-Theorem range_restrict_explicit_offset_refuted :
-  exists (a : @axis R) n_new o, axis_valid a /\ (0 < o)%Z /\ (o + n_new <= a_n a)%Z /\
-    a_min (resize_axis false a n_new (Some o) (a_bl a) (a_br a)) < a_min a.
-Proof. exact range_restrict_offset_refuted. Qed.
-(* ... and what holds with the repaired sign convention (proposed fix) *)
-Theorem range_restrict_explicit_offset_partial :
+(* T1: a restricting operator built with ran_shp and an explicit offset o has the
+   sub-interval starting o cells inside the domain as its range, same cell side.
+   (Was finding range-restrict-explicit-offset: the code used num_l = +o also when
+   shrinking; repaired by 62efc7f.  The decision tree is regenerated from the source,
+   so re-introducing the old convention breaks this proof.) *)
+Theorem range_restrict_explicit_offset :
   forall (a : @axis R) (n_new o : Z),
   axis_valid a -> (1 <= n_new < a_n a)%Z ->
   (a_bl a = true -> (2 <= n_new)%Z) -> (a_br a = true -> (2 <= n_new)%Z) ->
-  let r := resize_axis true a n_new (Some o) (a_bl a) (a_br a) in
+  let r := resize_axis a n_new (Some o) (a_bl a) (a_br a) in
   cell_side r = cell_side a /\
   a_min r = a_min a + IZR o * cell_side a /\
   a_max r = a_max a - IZR (a_n a - n_new - o) * cell_side a.
-Proof. exact range_restrict_offset_fixed. Qed.
-Print Assumptions range_restrict_explicit_offset_partial.
+Proof. exact range_restrict_offset. Qed.
+Print Assumptions range_restrict_explicit_offset.
 
 (* non-vacuity: the side conditions hold e.g. for 3 -> 7 with offset 2 in every mode,
    5 -> 2 with offset 3, and periodic padding as long as the array itself *)
@@ -256,6 +259,3 @@ Example config_ok_example :
   config_ok PSymmetric [3; 4; 2]%nat [5; 2; 2]%nat [1; 1; 0]%Z = true
   /\ config_ok POrder1 [2; 3]%nat [6; 3]%nat [3; 0]%Z && all_grow [2; 3]%nat [6; 3]%nat = true.
 Proof. split; vm_compute; reflexivity. Qed.
-Example at_most_one_example :
-  at_most_one [4; 3; 5]%nat [4; 7; 5]%nat [0; 2; 0]%Z && config_ok PPeriodic [4; 3; 5]%nat [4; 7; 5]%nat [0; 2; 0]%Z = true.
-Proof. vm_compute; reflexivity. Qed.
